@@ -430,8 +430,11 @@ def tree_signature(f):
 
 
 def replay_spelling(w):
-    a = _parserh.parse_concrete(list(w["program"]))
-    b = _parserh.parse_concrete(list(w["canonical"]))
+    try:
+        a = _parserh.parse_concrete(list(w["program"]))
+        b = _parserh.parse_concrete(list(w["canonical"]))
+    except Exception as e:  # noqa - FORD failing on a valid program is the violation
+        return True, {"program": w["program"], "canonical": w["canonical"], "ford_raised": f"{type(e).__name__}: {e}"}
     sa, sb = tree_signature(a), tree_signature(b)
     diff = _first_diff(sa, sb)
     return sa != sb, {"program": w["program"], "canonical": w["canonical"], "first_difference": diff}
@@ -765,7 +768,12 @@ def _spelling_ob(tname):
         canonical = []
         for s_ in slots:
             canonical.extend(s_[0] if isinstance(s_[0], tuple) else [s_[0]])
-        cf = _parserh.parse_concrete(list(canonical))
+        try:
+            cf = _parserh.parse_concrete(list(canonical))
+        except Exception as e:  # noqa - FORD must not fail on valid input
+            ctx.report(f"canonical spelling: parser raised {type(e).__name__}: {e}",
+                       {"program": canonical, "canonical": canonical, "template": tname}, replay_spelling)
+            return
         csig = tree_signature(cf)
         # anchor: the canonical spelling reports exactly what the text declares
         inv = inventory(cf)
